@@ -20,6 +20,7 @@ EXPLANATION = (
     "values equal the file prefix is NOT decided (numpy memmap semantics, trusted)."
     ' (D2 as built) whether the duration is rewritten depends on nothing but the size disagreement and the presence of metadata: the disjunction of the path conditions of all rewrite stores must not depend on any other atom (e.g. a logging option).'
     ' (D2 as built) besides memmap(shape=(ns, nc)) after the rewrite, a 1-D mapping of the whole items of the file (shape=(st_size // itemsize,)) exposed as raw[:n*nc].reshape(n, nc) with n = complete frames is accepted; a memmap without shape refuses byte lengths that are not a multiple of the item size and is reported; the mismatch test may compare items instead of bytes.'
+    ' (DS) Reader.open / __init__ / ns / shape do not store keys into a mapping that a memoised function hands out to every reader of the same meta file.'
 )
 ASSUMPTIONS = [
     "file sizes, item sizes and channel counts are positive integers; int() of a positive quotient is its floor",
